@@ -667,6 +667,14 @@ def run(run):
     for ck in C09.check_subsample(run, E9, pid='C04'):
         fails += ck.failed
     finish_engine(E9, run)
+    # callee contracts: the ceilings stored next to the evaluations are boot_noise_ceiling / cv_noise_ceiling of the same resample
+    # resp. folds -- their own leave-one-group-out dataflow (contracts generated by C07) is discharged here too
+    from contracts import C07
+    E7 = new_engine(run)
+    for gen in (C07.check_boot, C07.check_cv):
+        for ck in gen(run, E7, pid='C04'):
+            fails += ck.failed
+    finish_engine(E7, run)
     bds = []
     try:
         from contracts import C04_c
